@@ -32,7 +32,7 @@ RULE = ("case = (format, n_frames, entry point, stride, chunk, skip, atom subset
 WORKERS = {"quick": 8, "thorough": 16}
 BUDGET = {"quick": 90, "thorough": 1500}
 EXHAUSTIVE = {"quick": False, "thorough": True}
-FMTS = ["h5", "xtc", "xtc9", "trr", "dcd", "dcd0", "dcd4", "nc", "dtr", "mdcrd", "mdcrd-nobox", "xyz", "xyz-foreign", "xyz.gz", "lammpstrj", "gro", "pdb", "pdb.gz"]
+FMTS = ["h5", "xtc", "xtc9", "trr", "dcd", "dcd0", "dcd4", "dcdfix", "nc", "dtr", "mdcrd", "mdcrd-nobox", "xyz", "xyz-foreign", "xyz.gz", "lammpstrj", "gro", "pdb", "pdb.gz"]
 # dcd0 / dcd4: DCD files as other programs write them (stale header count; CHARMM 4-dimensional), see vlib/gen/files.py
 SUBSETS = {0: None, 1: [0, 2, 3], 2: [1], 3: [0, 1, 2, 3, 4, 5]}
 # ai == 4: a seeded random strictly increasing subset of 4..6 atoms (irregular gaps; readers may special-case regular ones)
@@ -75,7 +75,7 @@ def _grouped(gen):
         else:
             yield c
             # a thin slice of every native-reader case also rides in the sanitizer build
-            if c["fmt"] in ("xtc", "xtc9", "trr", "dcd", "dcd0", "dcd4", "dtr") and c["i"] % 6 == 0:
+            if c["fmt"] in ("xtc", "xtc9", "trr", "dcd", "dcd0", "dcd4", "dcdfix", "dtr") and c["i"] % 6 == 0:
                 d = dict(c)
                 d["group"] = "asan"
                 yield d
@@ -170,9 +170,9 @@ def _file_for(fmt, n, f0=0):
     key = (fmt, n, f0)
     if key in _CACHE:
         return _CACHE[key]
-    ext = {"xtc9": "xtc", "dcd0": "dcd", "dcd4": "dcd", "mdcrd-nobox": "mdcrd", "xyz-foreign": "xyz"}.get(fmt, fmt)
+    ext = {"xtc9": "xtc", "dcd0": "dcd", "dcd4": "dcd", "dcdfix": "dcd", "mdcrd-nobox": "mdcrd", "xyz-foreign": "xyz"}.get(fmt, fmt)
     na = 6 if fmt == "xtc9" else 12
-    cell = "ortho" if files.FORMATS[ext]["cell"] and fmt not in ("dcd4", "mdcrd-nobox") else None
+    cell = "ortho" if files.FORMATS[ext]["cell"] and fmt not in ("dcd4", "dcdfix", "mdcrd-nobox") else None
     t = files.ident_traj(n, na, cell=cell, f0=f0)
     path = os.path.join(_TMP, f"f_{fmt}_{n}_{f0}.{ext}")
     t.save(path)
@@ -183,6 +183,9 @@ def _file_for(fmt, n, f0=0):
     elif fmt == "dcd4":
         os.rename(path, path + ".3d")
         files.dcd_make_4d(path + ".3d", path, na, n)
+    elif fmt == "dcdfix":
+        os.rename(path, path + ".all")
+        files.dcd_make_fixed(path + ".all", path, na, n)
     kw = files.load_kwargs(ext, t.topology)
     full = md.load(path, **kw)
     f, a = files.identify(full.xyz)
